@@ -40,7 +40,7 @@ func genC16(seed uint64, idx int, tier string) interface{} {
 	rs := Mix(seed, strTag("C16"), uint64(idx))
 	r := NewRNG(rs)
 	fresh := fmt.Sprintf("%d", idx)
-	opt := GenOpts{Fresh: fresh, WantComments: 0.5, WantSpaces: 0.4, WantUnsafe: 0.25, WantCallback: 0.3, WantPatterns: r.Bool(0.3)}
+	opt := GenOpts{Fresh: fresh, WantComments: 0.5, WantSpaces: 0.4, WantUnsafe: 0.25, WantCallback: 0.3, WantPatterns: r.Bool(0.3), ZeroBase: 0.04}
 	rc := GenRecipe(r.Fork(1), opt)
 	v := VocabOf(rc, fresh)
 	var in []byte
